@@ -325,6 +325,14 @@ func (in *Interp) reinterpret(fr *frame, v Value, t types.Type) Value {
 			return in.rvFromWords(fr, s)
 		}
 	}
+	if st, ok := t.Underlying().(*types.Struct); ok && st.NumFields() == 2 {
+		switch v.(type) {
+		case Iface, FabIface:
+			// hack.Iface / hack.Eface view of an interface value
+			tab, data := in.ifaceWords(fr, v)
+			return &Struct{f: []Value{tab, data}}
+		}
+	}
 	switch t.Underlying().(type) {
 	case *types.Slice:
 		if s, ok := v.(*Struct); ok && len(s.f) == 3 {
@@ -406,6 +414,14 @@ func (in *Interp) castStore(fr *frame, c CastPtr, v Value, t types.Type) {
 	if pv, ok := c.p.(*Value); ok {
 		if pv == nil {
 			in.nilDeref(fr)
+		}
+		switch (*pv).(type) {
+		case Iface, FabIface:
+			if sv, ok := v.(*Struct); ok && len(sv.f) == 2 {
+				// storing a hack.Iface over an interface variable
+				in.setCell(pv, in.ifaceFromWords(fr, sv.f[0], sv.f[1]))
+				return
+			}
 		}
 		in.storeInto(pv, v)
 		return
@@ -1167,7 +1183,19 @@ func (in *Interp) equal(fr *frame, a, b Value) *Term {
 		if b == nil {
 			return Bool(x.nilS)
 		}
+	case FabIface:
+		switch y := b.(type) {
+		case FabIface:
+			return BAnd(in.equal(fr, x.tab, y.tab), in.equal(fr, x.data, y.data))
+		case Iface:
+			return FalseT
+		case nil:
+			return FalseT
+		}
 	case Iface:
+		if _, isFab := b.(FabIface); isFab {
+			return FalseT
+		}
 		y, ok := b.(Iface)
 		if !ok {
 			if b == nil {
@@ -1223,6 +1251,8 @@ func isNilValue(v Value) bool {
 		return x.nilS
 	case Iface:
 		return x.t == nil
+	case FabIface:
+		return false
 	case CastPtr:
 		return isNilValue(x.p)
 	}
@@ -1400,7 +1430,7 @@ func (in *Interp) needsCast(cell Value, elem types.Type) bool {
 	case *FuncV:
 		_, isSig := elem.Underlying().(*types.Signature)
 		return !isSig
-	case Iface:
+	case Iface, FabIface:
 		_, isI := elem.Underlying().(*types.Interface)
 		return !isI
 	}
